@@ -1,4 +1,5 @@
 import WebPkg.Proofs.Trace
+import WebPkg.Proofs.CountingWriter
 /-
   C19 — Write failures at any byte position surface as errors, never as success.
   Model: Model/Trace.lean. The theorem is generic over the chunking (how the serializer splits its output into
@@ -39,5 +40,20 @@ theorem chunking_irrelevant (mode : Mode) (c₁ c₂ : List Bytes) (h : c₁.fla
 theorem unchecked_write_breaks_it : ∃ (chunks : List Bytes) (i k : Nat) (mode : Mode),
     (runDropping mode i chunks k).failed = false ∧ (runDropping mode i chunks k).accepted ≠ chunks.flatten :=
   dropped_error_is_visible
+
+
+/-- `CountingWriter` (countingwriter.go): for every destination kind (implementing io.ReaderFrom, not implementing it,
+    failing after any number of bytes with a short write or with n = 0) and every sequence of `Write` / `ReadFrom`
+    calls -- the source delivered in chunks of any size --, `Written` equals the number of bytes the destination
+    accepted. -/
+theorem countingWriter_written_eq_received (k : CW.DestKind) (room : Nat) (ops : List CW.Op) :
+    (ops.foldl CW.step (CW.init k room)).written = (ops.foldl CW.step (CW.init k room)).received :=
+  CW.written_eq_received k room ops
+
+/-- and without a fault `ReadFrom` transfers the whole source, whatever the chunking -/
+theorem countingWriter_readFrom_complete (s : CW.State) (total chunk : Nat) (hk : s.kind ≠ .readerFrom)
+    (hf : ∀ b, s.kind ≠ .failing b) (hc : 0 < chunk) :
+    (CW.readFrom s total chunk).1 = total ∧ (CW.readFrom s total chunk).2.1 = false :=
+  CW.readFrom_complete s total chunk hk hf hc
 
 end WebPkg.C19
